@@ -1,6 +1,6 @@
 (* C12 — graceful shutdown answers every request already received. Statements only.
    Model: Conc/Shutdown.v (labelled transition system of tarsserver.go Shutdown, tcphandler.go Handle / recv /
-   handleConn / CloseIdles / sendCloseMsg and the worker pool as used by them). Parameters, all universally
+   handleConn / CloseIdles / sendCloseMsg and the worker pool as used by them). Inputs of the model, all universally
    quantified: W = maxroutine (0: one goroutine per request; > 0: pool of W workers), cap = capacity of JobQueue,
    early = false for the code after fix 0e6f835 / true for the code before it, and the label sequence ls = any
    number of connections and requests, any handler durations, any interleaving of the accept loop, the receive
